@@ -13,7 +13,7 @@ from ..oracle import errshape, run
 from . import _diff
 
 ID = "C11"
-USE = ("tok", "sub", "xsub", "asdl", "lay", "edit", "xedit", "chr")
+USE = ("tok", "sub", "xsub", "asdl", "lay", "edit", "xedit", "chr", "spell")
 VOCABS = ("expr", "stmt", "defs", "match", "lit", "xsh")
 SHIFT = -1
 ENGINE = "rejected inputs of E-TOK (python + xonsh) + E-SUB + E-ASDL + E-LAY + E-EDIT + pylay, plus the layout lift; errshape oracle"
